@@ -1,6 +1,7 @@
 package checks
 
 import (
+	"sync/atomic"
 	"fmt"
 	"math/rand"
 	"sync"
@@ -20,6 +21,7 @@ type crashBudget struct {
 	Tears     []int // byte positions at which a pending header write is torn
 	ContEvery int   // run a continuation on every n-th distinct recovered image
 	Seed      int64
+	Tick      *int64 // progress counter of the caller's watchdog
 }
 
 type recovered struct {
@@ -180,6 +182,9 @@ func crashExplore(r *core.Run, tr *core.Trace, env *fenv.Env, b crashBudget) (ou
 		seen := map[string]bool{}
 		try := func(img []byte, what string) {
 			images++
+			if b.Tick != nil {
+				atomic.AddInt64(b.Tick, 1)
+			}
 			rec, f, _ := recoverImage(img, tr.Name+"-img")
 			if f != nil {
 				f.Close()
@@ -257,11 +262,13 @@ func CheckC01(r *core.Run) {
 			defer wg.Done()
 			defer func() { <-sem }()
 			done := make(chan struct{})
+			c.Tick = new(int64)
 			go func() {
 				defer close(done)
 				tr, env := RunHistory(c)
 				b := budget
 				b.Seed += int64(i)
+				b.Tick = c.Tick
 				t2, cs, images := crashExplore(r, tr, env, b)
 				mu.Lock()
 				main[i] = t2
@@ -269,12 +276,13 @@ func CheckC01(r *core.Run) {
 				total += images
 				mu.Unlock()
 			}()
-			select {
-			case <-done:
-			case <-time.After(10 * time.Minute):
+			switch core.WatchRun(c.Tick, done, 120*time.Second, 60*time.Minute) {
+			case "hang": // neither an operation nor the opening of a crash image returned for 2 minutes
 				mu.Lock()
 				main[i] = &core.Trace{Name: c.Name, Meta: c.String(), Events: []core.Event{{"ev": "Hang"}}}
 				mu.Unlock()
+			case "timeout":
+				r.Break("crash exploration of %s did not finish within the budget (it kept making progress)", c.Name)
 			}
 		}(i, c)
 	}
@@ -311,4 +319,15 @@ judged:
 	judgeTx(r, main, reportOpts{})
 	// continuation traces: every deviation means the recovered file is not fully operational
 	judgeTx(r, conts, reportOpts{Mine: []string{"C03", "C04", "C07", "C10", "C11"}, Context: func(core.Reject) string { return ":recovered-file" }})
+	// "the last transaction whose Commit returned success": a Commit must not report success when
+	// one of its writes or syncs failed. A sample of the fault runs of C08 (every run ends with a
+	// plain reopen judged by Recovered); deviations inside the situations of C08's known findings
+	// are reported there.
+	ftraces, fjobs := faultRuns(r, "c01-fault", r.Pick(2, 6), r.Pick(16, 60), false)
+	r.Extra["fault_runs"] = len(fjobs)
+	for _, t := range ftraces {
+		r.AddDistinct(fmt.Sprint(t.Meta))
+		r.AddEvals(int64(len(t.Events)))
+	}
+	judgeTx(r, ftraces, reportOpts{Skip: func(rj core.Reject) bool { return faultContext(rj) != "" }})
 }
